@@ -15,6 +15,7 @@ META = {
     'note': 'Trusted: TLC, JSON plumbing, pixel read-back, the rendering of command records to DRAW text (checked indirectly: a wrong rendering is rejected). '
             'Angle commands (A, TA), P, WINDOW, VIEW and non-integer variable values are outside the fragment. Scale and pen colour persist between DRAW statements (part of the model).',
 }
+META['text'] += ' A scale outside 1..255 is refused: the string stops, earlier segments stay, the scale in force is unchanged (Draw.tla err); refused strings are judged on outcome and pen position.'
 _CASE = re.compile(r'^<<"CASE", "(.*)">>\s*$')
 MOVES = 'UDLREFGH'
 
